@@ -368,10 +368,7 @@ func ruleR12(c *Ctx) *RuleResult {
 		{"maps/linkedhashmap.Map", "Put", "contains"},
 	} {
 		key := pf.tk + "." + pf.name
-		var fn *ssa.Function
-		if ct := typeByKey(p, pf.tk); ct != nil {
-			fn = methodsOf(p, ct)[pf.name]
-		}
+		fn := anchorFn(p, pf.tk, pf.name)
 		if fn == nil {
 			r.add(Obligation{Key: "R12d:" + key, Rule: "R12d", Clause: clD, Pos: "-", Status: Undecided, Facts: "anchored function not found"})
 			continue
@@ -391,6 +388,22 @@ func ruleR12(c *Ctx) *RuleResult {
 			for _, ef := range g.Effects {
 				if !isReplaceEffect(ef, pf.kind) {
 					bad = append(bad, "effect on the key-present path: "+trunc(ef.String(), 300))
+				}
+			}
+			if pf.kind == "cmp" {
+				// the entry takes the new key as well as the new value (keys that compare equal may be distinguishable: Keys()
+				// lists the key of the most recent Put) — all three trees agree on this
+				k, v := false, false
+				for _, ef := range g.Effects {
+					if storeToField(ef, "Key") {
+						k = true
+					}
+					if storeToField(ef, "Value") {
+						v = true
+					}
+				}
+				if !k || !v {
+					bad = append(bad, fmt.Sprintf("the key-present path stores key=%v value=%v of the existing entry (both are replaced by a Put)", k, v))
 				}
 			}
 			// a boolean result means "a new entry was linked / the height changed": it must be false here
